@@ -33,10 +33,10 @@ MODULE = "UtapModel.Props.C16"
 GEN = os.path.join(core.LEAN_DIR, "UtapModel", "Gen", "C16Grammar.lean")
 FIELDS = {"guard": "guard", "sync": "sync", "assign": "assign", "prob": "prob"}
 XMLKIND = {"guard": "guard", "sync": "synchronisation", "assign": "assignment", "prob": "probability"}
-FAULTS = ["undeclared", "dropped", "bracket", "stray", "typeerr", "comment", "rangetypo"]
+FAULTS = ["undeclared", "dropped", "bracket", "stray", "typeerr", "comment", "rangetypo", "overflow"]
 # Faults that stay inside the label's `kind ... ;` section of the XTA text.  Unbalanced brackets are left out: in the one-text format
 # bison recovers through `'(' error ')'` / `'[' error ']'` and by design skips to the next closing bracket, wherever it is.
-XTA_FAULTS = {"undeclared", "dropped", "rangetypo"}
+XTA_FAULTS = {"undeclared", "dropped", "rangetypo", "overflow"}
 
 
 def balanced(t):
@@ -145,6 +145,13 @@ def inject(r, text, kind, pos=None):
         toks.insert(q, "zc + ")
     elif kind == "comment":
         toks.insert(p, " /* ")
+    elif kind == "overflow":
+        # an integer literal that does not fit an int (a lexer-level diagnostic, not a grammar one)
+        nums = [i for i in idx if re.fullmatch(r"\d+", toks[i])]
+        if nums:
+            toks[nums[(pos or 0) % len(nums)]] = r.choice(["50000000000", "2147483648", "99999999999999999999"])
+        else:
+            toks.insert(p, " 50000000000 + ")
     elif kind == "rangetypo":
         # the range type of a quantifier binder is misspelled: `forall (k : idt) (...)` is then read as a quantifier over the
         # instances of an (unknown) dynamic template -- a complete production, no syntax error
